@@ -502,6 +502,7 @@ def pick_factor(var, rng, j):
 
 
 def build_inputs(var, prob, method, part, rng, factor, t):
+    """prob: the instance used to manufacture the right-hand side (NOT necessarily the one that solves)."""
     state = var.state or st_uniform()
     if var.manufactured:
         ustar = np.asarray(state(prob, rng))
@@ -553,9 +554,24 @@ def config_tol(var, prob, rhs, u):
     return a
 
 
-def run_solve(var, prob, method, part, rng, factor, t, cfg_slack=100.0, ulp_slack=1024.0):
-    """One call of the real solver + implementation-side oracle.  Returns a dict."""
-    rhs, u0 = build_inputs(var, prob, method, part, rng, factor, t)
+def pick_factor_upper(var, rng):
+    """log-uniform in the upper half (in the log sense) of the admissible factor range."""
+    lo, hi = np.log10(var.fmin), np.log10(var.fmax)
+    return float(10.0 ** rng.uniform(0.5 * (lo + hi), hi))
+
+
+def run_solve(var, prob, method, part, rng, factor, t, cfg_slack=100.0, ulp_slack=1024.0, builder=None, evaluator=None, prior=None):
+    """One call of the real solver + implementation-side oracle.  Returns a dict.
+    builder:   instance that manufactures the inputs (default: prob);
+    evaluator: instance whose eval_f measures the residual (default: prob) - an independent fresh instance
+               exposes hidden state of the solving instance;
+    prior:     callable(prob) executed on the solving instance right before the solve (call history)."""
+    rhs, u0 = build_inputs(var, builder if builder is not None else prob, method, part, rng, factor, t)
+    if builder is not None:
+        rhs, u0 = make_u(prob, np.asarray(rhs)), make_u(prob, np.asarray(u0))
+    if prior is not None:
+        prior(prob)
+    ev = evaluator if evaluator is not None else prob
     s_rhs, s_u0 = snapshot(rhs), snapshot(u0)
     out = {'factor': factor, 't': t, 'rhs': np.array(rhs), 'u0': np.array(u0), 'error': None}
     try:
@@ -568,16 +584,16 @@ def run_solve(var, prob, method, part, rng, factor, t, cfg_slack=100.0, ulp_slac
     out['alias'] = [n for n, a in (('rhs', rhs), ('u0', u0)) if np.shares_memory(np.asarray(u), np.asarray(a))]
     out['type_ok'] = isinstance(u, prob.dtype_u) and np.asarray(u).shape == np.asarray(rhs).shape
     ua = np.array(u)
-    um = make_u(prob, ua)
+    um = make_u(ev, ua)
     s_u = snapshot(um)
-    g, f = gres(prob, part, um, factor, rhs, t)
+    g, f = gres(ev, part, um, factor, rhs, t)
     if snapshot(um) != s_u:
         out['mut'].append('u(eval_f)')
     out['u'] = ua
     out['f'] = np.array(f)
     out['finite'] = bool(np.all(np.isfinite(ua)))
     res = float(np.max(np.abs(g))) if out['finite'] and np.all(np.isfinite(g)) else float('inf')
-    floor = ulp_floor(prob, part, um, factor, rhs, t, rng) if out['finite'] else 0.0
+    floor = ulp_floor(ev, part, um, factor, rhs, t, rng) if out['finite'] else 0.0
     cfg = config_tol(var, prob, rhs, um)
     out.update(res=res, floor=floor, cfg=cfg, tol=cfg_slack * cfg + ulp_slack * floor + 1e-300)
     out['ok'] = res <= out['tol']
